@@ -5,7 +5,7 @@ from common import *
 
 NEEDS_DRIVER = True
 RULE = ('subprocess runs: nesting construct (parens, brackets, CASE, function calls, subqueries, unclosed openers, BEGIN blocks, mixed) x depth (below, around and beyond the '
-        'recursion limit) x recursion limit {200, 500, 1000, 3000} x entry point {parse, parsestream, split, format with option sets}; each followed by an ordinary call in the same process; '
+        'recursion limit) x recursion limit {200, 500, 1000, 3000} x entry point {parse, parsestream (at once and statement by statement with the deep statement second of three, and abandoned), split, format with option sets, the command line tool}; after a successful parse the str/repr/_pprint_tree/flatten/get_sublists/accessor calls at the same limit, the tree compared with the tree built under a high limit, the recursion limit of the interpreter unchanged; each followed by an ordinary call in the same process; '
         'successful results are checked for round trip and tree well-formedness (parent links, cached group values), formatted results for their significant tokens; every depth 1..85 at limit 80 '
         '(parse + thirteen option sets; nineteen ways to nest); soak: 300 calls at depths from a quarter of the limit to beyond it, at two limits, in one process, then a moderately nested ordinary script; non-trivial = distinct (construct, depth, limit, entry point)')
 ASSUMPTIONS = ['CPython frame accounting and C-stack behaviour are observed, not modelled', 'lexer/splitter/grouping models tied by S-TREE on the nesting constructs (and by the streams of C01/C02/C04)']
@@ -53,6 +53,29 @@ def wf(node):
                         if not c.tokens: return False
                         st.append(c)
     return True
+def shape(stmts):
+    # classes and nesting of the trees, pre-order, computed without recursion
+    out = []
+    for s0 in stmts:
+        st = [(s0, 0)]
+        while st:
+            n, d = st.pop()
+            out.append((d, type(n).__name__ if n.is_group else str(n.ttype)))
+            if n.is_group:
+                for c in reversed(n.tokens):
+                    st.append((c, d + 1))
+    return out
+def user_calls(stmts):
+    # what a caller does with a statement it got back, at the same recursion limit: none of it may overflow
+    for s0 in stmts:
+        for name, f in (('str', lambda: str(s0)), ('repr', lambda: repr(s0)), ('_pprint_tree', lambda: s0._pprint_tree(f=io.StringIO())), ('flatten', lambda: list(s0.flatten())),
+                        ('get_sublists', lambda: list(s0.get_sublists())), ('get_type', lambda: s0.get_type()), ('get_token_at_offset', lambda: s0.get_token_at_offset(len(str(s0)) // 2)),
+                        ('get_name', lambda: [g.get_name() for g in s0.get_sublists()]), ('within', lambda: [t.within(type(s0)) for t in list(s0.flatten())[-3:]])):
+            try:
+                f()
+            except RecursionError:
+                return name
+    return None
 KINDS_SOAK = ['call', 'paren', 'bracket']
 def sig(t, opts):
     # significant tokens of a text (whitespace aside; comments aside when they are stripped; keywords compared in upper case)
@@ -94,6 +117,56 @@ for kind, depth, limit, entry, opts in cases:
             r = sqlparse.parse(text); res = 'ok'
             if ''.join(str(s) for s in r).strip() != text.strip(): res = 'bad-roundtrip'
             elif not all(wf(s) and s.value == str(s) for s in r): res = 'ill-formed-tree'
+            else:
+                uc = user_calls(r)
+                if uc: res = 'RecursionError-in-user-call:' + uc
+                elif sys.getrecursionlimit() != limit: res = 'recursion-limit-changed:%%d' %% sys.getrecursionlimit()
+                else:
+                    # the tree built close to the limit is the tree built with plenty of stack
+                    sys.setrecursionlimit(max(20000, 8 * limit))
+                    try:
+                        ref = sqlparse.parse(text)
+                        if shape(ref) != shape(r): res = 'tree-differs-from-the-tree-built-with-a-high-limit'
+                    except SQLParseError:
+                        pass
+        elif entry == 'lazy':
+            # a caller consuming parsestream() statement by statement, with its own code in between; the deep statement is the second of three
+            script = 'select 1; ' + text + '; select 3'
+            g = sqlparse.parsestream(io.StringIO(script) if depth %% 2 else script)
+            got = []
+            res = 'ok'
+            for k in range(5):
+                try:
+                    s1 = next(g)
+                    got.append(str(s1))
+                    if not wf(s1): res = 'ill-formed-tree'
+                except StopIteration:
+                    break
+                except SQLParseError:
+                    got.append(None)          # the generator is finished after an error: further next() calls end it
+            if res == 'ok':
+                if None in got:
+                    if got[0].strip() != 'select 1;' or any(x is not None for x in got[got.index(None) + 1:]) and ''.join(x for x in got if x).replace(' ', '') not in script.replace(' ', ''):
+                        res = 'bad-statements-around-the-error'
+                elif ''.join(got).strip() != script.strip(): res = 'bad-roundtrip'
+            g2 = sqlparse.parsestream(script)      # a generator abandoned half-way
+            try: next(g2)
+            except SQLParseError: pass
+            del g2
+            if sys.getrecursionlimit() != limit: res = 'recursion-limit-changed:%%d' %% sys.getrecursionlimit()
+        elif entry == 'cli':
+            import tempfile, os, contextlib
+            from sqlparse import cli
+            fd, path = tempfile.mkstemp(suffix='.sql'); os.write(fd, text.encode()); os.close(fd)
+            buf = io.StringIO()
+            try:
+                with contextlib.redirect_stdout(buf), contextlib.redirect_stderr(io.StringIO()):
+                    rc = cli.main([path] + opts.get('argv', []))
+                res = 'ok' if rc in (0, 1) else 'cli-exit-%%r' %% (rc,)
+                if rc == 0 and not opts.get('argv') and buf.getvalue().strip() != text.strip(): res = 'bad-roundtrip'
+            finally:
+                os.unlink(path)
+            if sys.getrecursionlimit() != limit: res = 'recursion-limit-changed:%%d' %% sys.getrecursionlimit()
         elif entry == 'parsestream':
             r = list(sqlparse.parsestream(io.StringIO(text))); res = 'ok'
             if ''.join(str(s) for s in r).strip() != text.strip(): res = 'bad-roundtrip'
@@ -111,6 +184,8 @@ for kind, depth, limit, entry, opts in cases:
         res = 'RecursionError'
     except Exception as e:
         res = 'raised ' + type(e).__name__
+    if entry != 'soak' and res in ('ok', 'SQLParseError') and sys.getrecursionlimit() not in (limit, max(20000, 8 * limit)):
+        res = 'recursion-limit-changed:%%d' %% sys.getrecursionlimit()
     sys.setrecursionlimit(3000)
     try:
         later = later_ok()
@@ -149,8 +224,11 @@ def run(ctx):
     for limit in limits:
         for kind in KINDS:
             for depth in sorted({3, limit // 20, limit // 8, limit // 4, limit // 2, limit, 2 * limit}):
-                for entry in (['parse', 'format'] if ctx.quick() else ['parse', 'parsestream', 'split', 'format']):
-                    opts = rng.choice(OPTS) if entry == 'format' else {}
+                nth = len(cases)
+                for entry in (['parse', 'format', ['parsestream', 'split', 'lazy', 'cli'][nth % 4]] if ctx.quick() else ['parse', 'parsestream', 'split', 'format', 'lazy', 'cli']):
+                    opts = rng.choice(OPTS) if entry == 'format' else ({'argv': rng.choice([[], ['-r'], ['-k', 'upper', '-s']])} if entry == 'cli' else {})
+                    if entry in ('cli', 'lazy') and ctx.quick() and (limit >= 1000 or depth > limit):
+                        continue      # (slow, and the depth scan at limit 80 covers these entry points at every depth)
                     if ctx.quick() and rng.random() < 0.6:
                         continue
                     if depth > 1500 and kind in ('ops', 'list', 'mixed', 'subquery', 'case'):
@@ -165,6 +243,10 @@ def run(ctx):
             if ctx.quick() and kind in KINDS2 and depth % 2:
                 continue
             cases.append((kind, depth, SCAN_LIMIT, 'parse', {}))
+            if not ctx.quick() or (depth + ki) % 4 == 0:
+                cases.append((kind, depth, SCAN_LIMIT, 'lazy', {}))
+            if not ctx.quick() or (depth + ki) % 9 == 0:
+                cases.append((kind, depth, SCAN_LIMIT, 'cli', {'argv': [[], ['-r']][depth % 2]}))
             for oi, opts in enumerate(scan_opts):
                 if ctx.quick() and (depth + ki + oi) % 5:
                     continue
